@@ -327,6 +327,18 @@ def check(pid, tier="quick", seed=None, jobs=None, count=None, write_evidence=Tr
                            "detail": v.get("detail", ""), "minimise_executions": used, "case": mcase}, f, indent=1)
             ok, txt = replay_in_fresh_process(path)
             if not ok:
+                # the minimised form does not fail in a fresh process (the violation depends on something outside the case, e.g. on address-based
+                # hashes): fall back to the un-minimised cases of the first occurrences - a replay file is only reported after it reproduced
+                for r2, v2 in items[:3]:
+                    c2 = r2.get("case") or mod.generate(r2["seed"], tier)
+                    with open(path, "w", encoding="utf-8") as f:
+                        json.dump({"property": pid, "seed": r2["seed"], "verif_seed": seed, "expect": {"clause": clause, "sig": sig}, "detail": v2.get("detail", ""),
+                                   "minimise_executions": 0, "note": "un-minimised: the minimised form did not reproduce in a fresh process", "case": c2}, f, indent=1)
+                    ok, txt2 = replay_in_fresh_process(path)
+                    if ok:
+                        r, v = r2, v2
+                        break
+            if not ok:
                 herrs.append(f"violation {clause}/{sig} (seed {r['seed']}) did not reproduce from its replay file {path}:\n{txt[-1500:]}")
                 n_viol -= 1
                 continue
